@@ -310,6 +310,23 @@ class PEval:
                     return ("adt", "std::result::Result", "Ok", 0, [v[4][0] if v[4] else UNK])
                 return ("adt", "std::result::Result", "Err", 1, [args[1]])
             return UNK
+        if re.search(r"::Option::<T>::ok_or_else$", name):
+            v = args[0]
+            if isinstance(v, tuple) and v[0] == "adt":
+                if v[2] == "Some":
+                    return ("adt", "std::result::Result", "Ok", 0, [v[4][0] if v[4] else UNK])
+                ev = UNK
+                fv = args[1] if len(args) > 1 else None
+                if isinstance(fv, tuple) and fv[0] == "fn" and self.depth < 3:
+                    fb = self.F.body(fv[1])
+                    if fb is not None:
+                        sub = PEval(self.F, fb, self.on_call, self.max_steps)
+                        sub.depth = self.depth + 1
+                        r = run_region(sub, {1: UNK}, 0)
+                        if r[0] == "ret":
+                            ev = r[1].get(0, UNK)
+                return ("adt", "std::result::Result", "Err", 1, [ev])
+            return UNK
         if re.search(r"::Result::<T, E>::map_err$", name):
             v = args[0]
             if isinstance(v, tuple) and v[0] == "adt" and v[2] == "Ok":
